@@ -888,7 +888,7 @@ func genRetVol(r *rand.Rand) string {
 			if kind == 'l' {
 				switch r.Intn(8) {
 				case 0:
-					latest = uint64(r.Int63n(5000000000)) // tiny times: interplay with wrapped metrics keys
+					latest = uint64(r.Int63n(5000000000)) // tiny times (these tied with the wrapped uint32 metrics keys before the fix)
 				case 1:
 					if i > 0 {
 						latest = lastLatest
@@ -901,11 +901,11 @@ func genRetVol(r *rand.Rand) string {
 				k = latest
 			} else {
 				if r.Intn(5) == 0 {
-					latest = uint64(r.Int63n(4294967)) // product fits into uint32
+					latest = uint64(r.Int63n(4294967)) // product fits into uint32 (old and new key agree)
 				} else {
 					latest = base/1000 - uint64(r.Int63n(30*86400))
 				}
-				k = (latest * 1000) % (1 << 32)
+				k = latest * 1000 // the sort key uint64(LatestEpochSec) * 1000
 			}
 			if !usedKeys[k] || (allowTies && kind == 'l' && tries > 2) {
 				break
